@@ -10,7 +10,7 @@ open TfelVerif TfelVerif.C43.GenIN3D
 set_option linter.unusedVariables false
 variable {K : Type} [Field K] [CharZero K] (c c3 : K) (fn : Fns K) (D : Derivation ℤ K K)
 
-theorem D_ofNat (n : ℕ) [n.AtLeastTwo] : D (OfNat.ofNat n : K) = 0 := by
+theorem D_ofNat (n : ℕ) [n.AtLeastTwo] : D (no_index (OfNat.ofNat n) : K) = 0 := by
   rw [← Nat.cast_ofNat]; exact D.map_natCast _
 
 set_option maxHeartbeats 4000000 in
